@@ -42,22 +42,6 @@ Definition model_agrees (c : case) : bool :=
     end
   end.
 
-(* no references: every setting is there to be listed (a node may hold named settings and a
-   list part at once) *)
-Fixpoint static (v : value) : bool :=
-  match v with
-  | VRef _ _ | VSplice _ => false
-  | VSub d a =>
-    (fix gd (l : list (string * (string * value))) : bool :=
-       match l with [] => true | (_, (_, x)) :: r => static x && gd r end) d
-    && match a with
-       | None => true
-       | Some l => (fix ga (l : list (string * value)) : bool :=
-                      match l with [] => true | (_, x) :: r => static x && ga r end) l
-       end
-  | _ => true
-  end.
-
 Definition prop_holds (c : case) : bool :=
   match c with
   | CKeys t fl nodes _ =>
